@@ -211,7 +211,8 @@ type LState struct {
 	mainLoop     func(*LState, *callFrame)
 	ctx          context.Context
 	ctxCancelFn  context.CancelFunc
-	ctxParent    context.Context // what ctx was derived from in NewThread (nil for a context attached by SetContext)
+	ctxOwner     *LState // the thread whose context ctx was derived from in NewThread
+	ctxChildren  int     // live threads whose context was derived from ctx
 }
 
 func (ls *LState) String() string   { return fmt.Sprintf("thread: %p", ls) }
